@@ -103,6 +103,12 @@ def run_bounded(prop, name, tier, seed, shard, nshards):
     t0 = time.time()
     out = {'prop': prop, 'bounded': name, 'shard': shard, 'status': 'ok'}
     try:
+        # the compiled rainflow kernels are the ones rebuilt from the CURRENT extension.pyx (pv/extbuild.py): installed before anything imports the detector modules
+        # (`from pylife.rainflow_ext import ...` binds at import time).  Since the frame guards import the anchored modules first, the rainflow harnesses had been
+        # running the .so lying in the source tree - found when seed C02-h (a change to the .pyx only) went unnoticed by the bounded part
+        if os.environ.get('PV_EXT_SO') or any(m.startswith('pylife.stress.rainflow') for m in anchored_modules(prop)):
+            from . import extbuild
+            extbuild.install()
         if os.environ.get('PV_NO_GUARDS') != '1':
             from . import guards
             import sys
